@@ -22,8 +22,10 @@ Definition name := bytes.
 
 (* EFile: a regular file OR a symbolic link to one (os.path.isfile, os.stat, open all follow links, os.remove takes
    the link away: the code cannot tell them apart);  EDir: a directory;  ELink: a dangling symbolic link
-   (listed by os.scandir, os.path.isfile false; open(..,'wb') through it creates the target) *)
-Inductive entry := EFile (size : N) | EDir | ELink.
+   (listed by os.scandir, os.path.isfile false; open(..,'wb') through it creates the target);
+   ELoop: a symbolic link that leads back to itself (ELOOP): listed by os.scandir, DirEntry.is_file() raises
+   OSError (counted as "not a file" since b5ea849), os.path.isfile false, every open() fails *)
+Inductive entry := EFile (size : N) | EDir | ELink | ELoop.
 Inductive status := Pending | Finished.
 
 Definition status_eqb (a b : status) : bool :=
@@ -69,6 +71,9 @@ Definition is_file (d : disk_t) (n : name) : bool :=
   match lookup d n with Some (EFile _) => true | _ => false end.
 Definition is_dir (d : disk_t) (n : name) : bool :=
   match lookup d n with Some EDir => true | _ => false end.
+(* what a plain open(path,'wb') from outside cannot write through: a directory or a symlink loop *)
+Definition blocks_open (d : disk_t) (n : name) : bool :=
+  match lookup d n with Some EDir | Some ELoop => true | _ => false end.
 (* { item.name for item in os.scandir(blob_dir) if is_valid_blobhash(item.name) and item.is_file() }
    DirEntry.is_file() follows symlinks: regular files and links to regular files, NOT directories, NOT dangling
    links (repaired in 8ca445d).  Written with the directory's own lookup so that no uniqueness assumption on the
@@ -164,7 +169,7 @@ Definition set_save (s : state) (b : bool) : state := mkState (disk s) (db s) (c
 Definition restart_with (s : state) (b : bool) : state := restart (set_save s b).
 
 (* ---------- operations between restarts ---------- *)
-Inductive result := RDone | RHave | RBusy | RInvalid | RNoLength | RDead | RPrecondition.
+Inductive result := RDone | RHave | RBusy | RInvalid | RNoLength | RDead | RPrecondition | RFailed.
 
 (* BlobManager.get_blob(h, length) for a valid h: returns (disk', the returned object (BlobFile?, verified), cache').
    A cache miss builds, through _get_blob, a BlobFile when config.save_blobs or the file exists, else a BlobBuffer.
@@ -185,7 +190,10 @@ Definition get_blob (sv : bool) (d : disk_t) (c : cache_t) (h : name) (len : N)
       end
   end.
 
-(* open(path,'wb').write(data): on a directory the write raises inside the executor and nothing changes on disk *)
+(* BlobFile._write_blob (since 1cc6188): the bytes go to '<hash>.tmp' and are renamed into place with os.replace.
+   The rename replaces a symbolic link of that name (dangling, loop) by the file; onto a DIRECTORY it raises and
+   nothing changes under the blob's name.  ('<hash>.tmp' scratch files are never blob names -- '.', 't', 'm' are
+   outside the hash alphabet -- and are left out of the modelled directory.) *)
 Definition write_file (d : disk_t) (h : name) (sz : N) : disk_t :=
   if is_dir d h then d else set_key d h (EFile sz).
 
@@ -199,7 +207,8 @@ Definition buffer_completed (s : state) (h : name) : state :=
 (* One blob download, as BlobDownloader.download_blob + BlobExchangeClientProtocol drive it:
    blob = get_blob(h, len); verified -> nothing to do; not blob.is_writeable() (a file is there) -> give up;
    writer = blob.get_blob_writer(); blob.set_length(len); writer.write(data)  -> save_verified_blob -> file write
-   -> verified.set() (done-callback, runs even if the write raised) -> blob_completed. *)
+   -> if the write succeeded (82794e2): verified.set() and blob_completed; a failed write (a directory sits at the
+   blob's path) leaves the blob unverified and nothing recorded. *)
 Definition complete (s : state) (h : name) (len : N) : state * result :=
   if negb (valid_name h) then (s, RInvalid) else
   let '(d1, e, c1) := get_blob (save s) (disk s) (cache s) h len in
@@ -207,6 +216,7 @@ Definition complete (s : state) (h : name) (len : N) : state * result :=
   if snd e then (s1, RHave)
   else if fst e && is_file d1 h then (s1, RBusy)              (* BlobFile.is_writeable() is false *)
   else if len =? 0 then (s1, RNoLength)
+  else if fst e && is_dir d1 h then (s1, RFailed)
   else if fst e then
     let s2 := mkState (write_file d1 h len) (db s) (completed s) (set_key c1 h (true, true)) (alive s) (save s) (marked s) in
     (blob_completed s2 h, RDone)
@@ -220,8 +230,9 @@ Definition touch (s : state) (h : name) (len : N) : state * result :=
   let '(d1, e, c1) := get_blob (save s) (disk s) (cache s) h len in
   (mkState d1 (db s) (completed s) c1 (alive s) (save s) (marked s), if snd e then RHave else RDone).
 
-(* the same download, but the process dies when [written] bytes of the file are on disk and before the database
-   write (blob_completed may or may not have run: memory is lost either way); a BlobBuffer leaves nothing *)
+(* the same download, but the process dies before the database write: either between the rename into place and
+   storage.add_blobs (written = len: the whole file is there), or in the middle of writing '<hash>.tmp'
+   (written < len: nothing appears under the blob's name).  A BlobBuffer leaves nothing. *)
 Definition crash_write (s : state) (h : name) (len written : N) : state * result :=
   if negb (valid_name h) then (s, RInvalid) else
   let '(d1, e, c1) := get_blob (save s) (disk s) (cache s) h len in
@@ -229,7 +240,8 @@ Definition crash_write (s : state) (h : name) (len written : N) : state * result
   if snd e then (s1, RHave)
   else if fst e && is_file d1 h then (s1, RBusy)
   else if len =? 0 then (s1, RNoLength)
-  else (mkState (if fst e then write_file d1 h written else d1) (db s) [] [] false (save s) (marked s), RDone).
+  else (mkState (if fst e && (written =? len) then write_file d1 h len else d1) (db s) [] [] false (save s) (marked s),
+        RDone).
 
 (* BlobFile.create_from_unencrypted(..., blob_completed_callback=blob_manager.blob_completed) on a fresh hash:
    the BlobFile is NOT entered in BlobManager.blobs *)
@@ -271,13 +283,20 @@ Definition publish_crash (s : state) (hs : list (name * N)) (sd : name * N) (k j
   (mkState d1 db1 [] [] false (save s) (marked s), RDone).
 
 (* BlobManager.delete_blob(h) for a valid h.  A cached BlobBuffer is only dropped (AbstractBlob.delete touches no
-   file, even if one has appeared meanwhile). *)
+   file, even if one has appeared meanwhile).  The hash always leaves completed_blob_hashes (1ed13b5). *)
 Definition delete_blob (s : state) (h : name) : state :=
   match lookup (cache s) h with
   | None => mkState (if is_file (disk s) h then remove_key (disk s) h else disk s)
-                    (db s) (completed s) (cache s) (alive s) (save s) (marked s)
+                    (db s) (set_remove h (completed s)) (cache s) (alive s) (save s) (marked s)
   | Some e => mkState (if fst e && is_file (disk s) h then remove_key (disk s) h else disk s)
                       (db s) (set_remove h (completed s)) (remove_key (cache s) h) (alive s) (save s) (marked s)
+  end.
+(* ... as it was before 1ed13b5: a hash that is not in BlobManager.blobs stayed in completed_blob_hashes *)
+Definition delete_blob_old (s : state) (h : name) : state :=
+  match lookup (cache s) h with
+  | None => mkState (if is_file (disk s) h then remove_key (disk s) h else disk s)
+                    (db s) (completed s) (cache s) (alive s) (save s) (marked s)
+  | Some _ => delete_blob s h
   end.
 
 (* the loop of BlobManager.delete_blobs: an invalid hash raises and aborts before the database is touched *)
@@ -310,10 +329,13 @@ Definition stream_delete (s : state) (hs : list name) (sd : name) : state * resu
    A managed stream (a file with a claim) is given by its sd hash, the length of its sd blob and its content hashes.
    Precondition of the tie (kept by the generators): the blob_length column of the stream's rows holds the
    descriptor's lengths, so that StreamDescriptor.recover reproduces the sd hash whenever all rows are there. *)
-Definition stream_t := (name * N * list name)%type.
-Definition st_sd (st : stream_t) : name := fst (fst st).
-Definition st_len (st : stream_t) : N := snd (fst st).
-Definition st_blobs (st : stream_t) : list name := snd st.
+(* the last component says what the sd blob FILE holds at the moment of the start, if there is one: false = a
+   descriptor that parses as JSON (valid or not), true = bytes that are not JSON (damaged behind the daemon's back) *)
+Definition stream_t := (name * N * list name * bool)%type.
+Definition st_sd (st : stream_t) : name := fst (fst (fst st)).
+Definition st_len (st : stream_t) : N := snd (fst (fst st)).
+Definition st_blobs (st : stream_t) : list name := snd (fst st).
+Definition st_not_json (st : stream_t) : bool := snd st.
 Definition st_names (st : stream_t) : list name := st_sd st :: st_blobs st.
 
 (* initialize_from_database: `if not self.blob_manager.is_blob_verified(file_info['sd_hash'])` -> to_recover *)
@@ -325,7 +347,8 @@ Definition rows_present (s : state) (st : stream_t) : bool :=
 (* recover_stream, first half: sd_blob = blob_manager.get_blob(sd_hash) -- always -- and, when the rows are there,
    descriptor.make_sd_blob(sd_blob): set_length; if not verified: get_blob_writer().write(sd_data) -> file (or
    buffer) -> verified -> blob_completed.  (A cached unverified BlobFile with a file present would raise; a fresh
-   start never has one.) *)
+   start never has one.  With a DIRECTORY under the sd name the write fails and, since 82794e2, make_sd_blob waits
+   for `verified` for ever: the theorems exclude that input.) *)
 Definition recover_sd (s : state) (st : stream_t) : state :=
   let '(d1, e, c1) := get_blob (save s) (disk s) (cache s) (st_sd st) 0 in
   let s1 := mkState d1 (db s) (completed s) c1 (alive s) (save s) (marked s) in
@@ -348,13 +371,30 @@ Definition store_recovered (s : state) (st : stream_t) : state :=
   mkState (disk s) db2 (completed s) (cache s) (alive s) (save s) (set_add (st_sd st) (unmark_all (marked s) names)).
 
 (* _load_stream: blob_manager.get_stream_descriptor(sd_hash) -> get_blob(sd_hash) (cached from now on) and, if
-   readable, one read; reading a BlobBuffer consumes it (its verified flag is cleared) *)
+   readable, one read; reading a BlobBuffer consumes it (its verified flag is cleared).  A descriptor that is valid
+   JSON but otherwise wrong only raises InvalidStreamDescriptorError (swallowed by _load_stream).  Bytes that are NOT
+   JSON make the parser call blob.delete(): the file is removed -- and (repaired behaviour) get_stream_descriptor
+   then drops the hash through delete_blobs: out of BlobManager.blobs and completed_blob_hashes, row deleted. *)
 Definition load_stream (s : state) (st : stream_t) : state :=
   let '(d1, e, c1) := get_blob (save s) (disk s) (cache s) (st_sd st) 0 in
+  if fst e && snd e && st_not_json st then
+    mkState (remove_key d1 (st_sd st)) (db_delete (db s) (st_sd st)) (set_remove (st_sd st) (completed s))
+            (remove_key c1 (st_sd st)) (alive s) (save s) (set_remove (st_sd st) (marked s))
+  else
   let c2 := if negb (fst e) && snd e then set_key c1 (st_sd st) (false, false) else c1 in
   mkState d1 (db s) (completed s) c2 (alive s) (save s) (marked s).
 
-Definition daemon_start (s : state) (streams : list stream_t) : state :=
+(* the same read BEFORE the repair: the file goes, the bookkeeping stays (kept for C18_damaged_sd_old_refuted) *)
+Definition load_stream_old (s : state) (st : stream_t) : state :=
+  let '(d1, e, c1) := get_blob (save s) (disk s) (cache s) (st_sd st) 0 in
+  if fst e && snd e && st_not_json st then
+    mkState (remove_key d1 (st_sd st)) (db s) (completed s) (set_key c1 (st_sd st) (true, false)) (alive s) (save s)
+            (marked s)
+  else
+  let c2 := if negb (fst e) && snd e then set_key c1 (st_sd st) (false, false) else c1 in
+  mkState d1 (db s) (completed s) c2 (alive s) (save s) (marked s).
+
+Definition daemon_start_with (load : state -> stream_t -> state) (s : state) (streams : list stream_t) : state :=
   let s0 := restart s in
   let to_recover := filter (needs_recovery s0) streams in
   let restored := filter (rows_present s0) to_recover in
@@ -363,7 +403,9 @@ Definition daemon_start (s : state) (streams : list stream_t) : state :=
   let to_check := flat_map st_names restored in
   let (db3, c3) := ensure_completed (disk s2) to_check (db s2) (cache s2) in
   let s3 := mkState (disk s2) db3 (completed s2) c3 (alive s2) (save s2) (marked s2) in
-  fold_left load_stream streams s3.
+  fold_left load streams s3.
+Definition daemon_start := daemon_start_with load_stream.
+Definition daemon_start_old := daemon_start_with load_stream_old.
 
 Inductive op :=
 | OComplete (h : name) (len : N)
@@ -378,6 +420,7 @@ Inductive op :=
 | OExtRemove (n : name)                   (* behind the daemon's back: remove the entry *)
 | OExtLink (n : name) (target : option N) (* behind the daemon's back: a symlink named n to a regular file of that
                                              size (a relocated blob), or a dangling one (None); no-op if n exists *)
+| OExtLoop (n : name)                     (* behind the daemon's back: a symlink named n pointing to itself *)
 | OExtDb (h : name) (st : option status)  (* state injection: force / drop a row (explores arbitrary pre-states) *)
 | OExtMark (h : name)                     (* state injection: should_announce=1 on the row of h, if there is one *)
 | ORestart
@@ -390,12 +433,13 @@ Definition with_db (s : state) (b : db_t) : state := mkState (disk s) b (complet
 
 Definition step (s : state) (o : op) : state * result :=
   match o with
-  | OExtFile n sz => (if is_dir (disk s) n then s else with_disk s (set_key (disk s) n (EFile sz)), RDone)
+  | OExtFile n sz => (if blocks_open (disk s) n then s else with_disk s (set_key (disk s) n (EFile sz)), RDone)
   | OExtDir n => (match lookup (disk s) n with None => with_disk s (set_key (disk s) n EDir) | Some _ => s end, RDone)
   | OExtRemove n => (with_disk s (remove_key (disk s) n), RDone)
   | OExtLink n t => (match lookup (disk s) n with
                      | None => with_disk s (set_key (disk s) n (match t with Some sz => EFile sz | None => ELink end))
                      | Some _ => s end, RDone)
+  | OExtLoop n => (match lookup (disk s) n with None => with_disk s (set_key (disk s) n ELoop) | Some _ => s end, RDone)
   | OExtDb h None => (mkState (disk s) (db_delete (db s) h) (completed s) (cache s) (alive s) (save s)
                               (set_remove h (marked s)), RDone)
   | OExtDb h (Some st) => (with_db s (db_update (db_insert_ignore (db s) h st) h st), RDone)
@@ -427,7 +471,8 @@ Fixpoint run (s : state) (ops : list op) : state :=
 
 (* operations that plant something that is not a (link to a) regular file in the blob directory; the property's
    theorems no longer need to exclude them (only the auxiliary files_only invariant of the proofs does) *)
-Definition is_ext_dir (o : op) : bool := match o with OExtDir _ | OExtLink _ None => true | _ => false end.
+Definition is_ext_dir (o : op) : bool :=
+  match o with OExtDir _ | OExtLink _ None | OExtLoop _ => true | _ => false end.
 
 (* SQLiteStorage.get_blobs_to_announce() with every row due (next_announce_time in the past, no single_announce) and
    the limit not reached:
